@@ -49,6 +49,8 @@ def make_kdata(case, rng, n_k0=None, n_coils=3):
         # every readout has its own orientation; odd readouts have a left-handed (read, phase, slice) frame
         ang = 0.1 * ident
         a['dirs'] = ((math.cos(ang), math.sin(ang), 0.0), (-math.sin(ang), math.cos(ang), 0.0), (0.0, 0.0, -1.0 if ident % 2 else 1.0))
+        # asymmetric echoes / partial Fourier: the centre sample differs from readout to readout
+        a['center_sample'] = n_k0 // 2 + (ident % 3) - 1
         acqs.append(a)
         ident += 1
     rng.shuffle(acqs)
@@ -174,6 +176,11 @@ def run(case, drv) -> Outcome:
                                      f'the image inside the (centred) reduced field of view changed: readout {k0} -> {n_new}')
                 if list(new.traj.kx.shape[-1:]) not in ([n_new], [1]) or int(new.header.acq_info.number_of_samples.flatten()[0]) != n_new:
                     viol = viol or v('remove_os-shapes', 'trajectory / header sample counts do not match the cropped data')
+                # the centre sample of every readout still points at the same sample: shifted by the samples cropped in front
+                cs_old = kd.header.acq_info.center_sample.flatten().to(torch.int64)
+                cs_new = new.header.acq_info.center_sample.flatten().to(torch.int64)
+                if cs_new.shape != cs_old.shape or not torch.equal(cs_new, cs_old - s0):
+                    viol = viol or v('remove_os-center_sample', f'center_sample of the readouts is {cs_new.tolist()[:6]} after cropping {s0} samples in front, it was {cs_old.tolist()[:6]}')
         else:
             variant = rng.choice(['default', 'default', 'batch_other', 'joint_k', 'batch_k2', 'batch_k1', 'batch_other_k1', 'joint_other_k1_k0', 'batch_k1_k0'])
             if case.get('variant') and len(log) == 0:
